@@ -166,7 +166,7 @@ PROPS['C18'] = {
 
 PROPS['C02'] = {
     'level': 'proof', 'claimed': True,
-    'claim': 'unbounded no-panic proofs (every index/slice/nil/division fault obligation discharged for all byte streams, the reader being an arbitrary source of lines/runes) for the functions listed in functions_under_contract; so far: the Newick stream splitter, the multi-tree reader goroutine, the single-tree entry point, and the whole Nexus scanner and parser (every loop additionally proved to terminate: each iteration consumes input of the abstract rune stream or sets its stop flag; end of input inside a comment, command or block is reported as an error)',
+    'claim': 'unbounded no-panic proofs (every index/slice/nil/division fault obligation discharged for all byte streams, the reader being an arbitrary source of lines/runes) for the functions listed in functions_under_contract; so far: the Newick stream splitter, the multi-tree reader goroutine, the single-tree entry point, the whole Newick scanner and parser and the whole Nexus scanner and parser (every loop additionally proved to terminate: each iteration consumes input of the abstract rune stream or sets its stop flag; end of input inside a comment, command or block is reported as an error)',
     'level_note': 'bufio/bytes/strings/strconv are trusted to be total and to return well-typed values; termination is proved only where a decreases clause is given; memory and stack exhaustion are environment facts',
     'packages': ALLPK,
     'functions': ['io/fileutils.ReadUntilSemiColon', 'io/utils.ReadMultiTrees$1', 'io/utils.ReadTreeReader',
@@ -175,6 +175,11 @@ PROPS['C02'] = {
                   '(*io/nexus.Parser).scanIgnoreWhitespaceAndEOL', '(*io/nexus.Parser).consumeComment', '(*io/nexus.Parser).parseUnsupportedCommand',
                   '(*io/nexus.Parser).parseUnsupportedKey', '(*io/nexus.Parser).parseUnsupportedBlock', '(*io/nexus.Parser).parseData',
                   '(*io/nexus.Parser).parseTaxa', '(*io/nexus.Parser).parseTranslationTable', '(*io/nexus.Parser).parseTrees',
+                  '(*io/newick.Scanner).read', '(*io/newick.Scanner).unread', '(*io/newick.Scanner).scanWhitespace', '(*io/newick.Scanner).scanIdent',
+                  '(*io/newick.Scanner).Scan', '(*io/newick.Parser).scan', '(*io/newick.Parser).unscan', '(*io/newick.Parser).scanIgnoreWhitespace',
+                  '(*io/newick.Parser).consumeComment', '(*io/newick.NodeStack).Clear',
+                  ('(*io/newick.Parser).parseIter', {'match': [r'^nil', r'^bounds', r'^div0', r'^typeassert', r'^nopanic', r'^decreases', r'^inv', r'^pre', r'^noexit', r'^post']}),
+                  ('(*io/newick.Parser).Parse', {'match': [r'^nil', r'^bounds', r'^div0', r'^typeassert', r'^nopanic', r'^decreases', r'^inv', r'^pre', r'^noexit']}),
                   ('(*io/nexus.Parser).Parse', {'match': [r'^nil', r'^bounds', r'^div0', r'^typeassert', r'^nopanic', r'^decreases', r'^inv', r'^pre', r'^noexit']})],
     'trusted_base': TB_COMMON,
     'assumptions': A_COMMON,
@@ -193,4 +198,17 @@ PROPS['C13'] = {
     'assumptions': A_COMMON,
     'explanation': 'Relational / agreement contracts on the entry points, proved deductively; format conversion round trips are compositions outside the reach of per-function contracts and are not claimed.',
     'not_decided': ['Newick <-> Nexus <-> PhyloXML conversion round trips (whole-document identities)', 'Nexus translate table inverse renaming', 'PhyloXML field correspondence writeClade/cladeToTree'],
+}
+
+PROPS['C01'] = {
+    'level': 'other', 'claimed': True,
+    'claim': 'local contracts of the Newick reader proved on the real code for all token streams: in parseIter a label after ")" is taken either as a node name or as a support value (with an optional p-value), never both - a name never comes with a changed support/p-value of the branch and a support never with a changed name; every iteration consumes input or returns; no run-time fault. The writer (Node.Newick) and the whole-document identity parse(write(t)) = t are not decided',
+    'level_note': 'the composition parse o write over unbounded trees is a simultaneous induction over tree and token stream that no per-function contract expresses (DESIGN.md section 5); strconv round-trip exactness is trusted',
+    'packages': ALLPK,
+    'functions': [('(*io/newick.Parser).parseIter', {'match': [r'^step', r'^inv', r'^decreases']}),
+                  '(*io/newick.Scanner).Scan', '(*io/newick.Scanner).scanIdent'],
+    'trusted_base': TB_COMMON,
+    'assumptions': A_COMMON,
+    'explanation': 'Deductive per-token contracts of the real parser; the round trip itself is a composition outside this technique.',
+    'not_decided': ['parse(write(t)) = t and byte-identical rewrite for unbounded trees', 'writer emission order (Node.Newick)', 'lexer classification isIdent as a full equivalence'],
 }
